@@ -16,6 +16,16 @@ def run_case(spec):
 
 
 def limits_case(spec):
+    try:
+        return _limits_case(spec)
+    except ValueError as e:
+        if 'Failed to finish transcript' in str(e):
+            # per-transcript wall-clock limit hit by a run without injected timeouts (dense cluster, loaded machine): no verdict
+            return {'nontrivial': False, 'violations': [], 'counters': {'limit_cases': 1, 'limit_case_wallclock_timeouts': 1}}
+        raise
+
+
+def _limits_case(spec):
     import sys
     import moPepGen.cli.call_variant_peptide  # noqa
     M = sys.modules['moPepGen.cli.call_variant_peptide']
@@ -26,7 +36,7 @@ def limits_case(spec):
     res = {'violations': [], 'counters': {'limit_cases': 1}}
     try:
         paths = cv.write_case(case, wd)
-        base, _ = cvmon.execute(case, wd, paths, out='base.fasta')
+        base, _ = cvmon.execute(case, wd, paths, out='base.fasta', timeout_seconds=180)
         base = {s for _, s in base}
         res['nontrivial'] = bool(base)
         n_less = 0
@@ -50,7 +60,7 @@ def limits_case(spec):
             return 'KF-CTX' if all(p not in ctx_cache['r'] and p in ctx_cache['m'] for p in extra) else None
         for i, (mv, av) in enumerate(LIMIT_SETTINGS):
             fa, _ = cvmon.execute(case, wd, paths, out=f'l{i}.fasta', max_variants_per_node=mv,
-                                  additional_variants_per_misc=av)
+                                  additional_variants_per_misc=av, timeout_seconds=180)
             got = {s for _, s in fa}
             res['counters']['limit_runs'] = res['counters'].get('limit_runs', 0) + 1
             if not got <= base:
@@ -74,7 +84,7 @@ def limits_case(spec):
             M.call_variant_peptides_wrapper = wrapper
             try:
                 fa, _ = cvmon.execute(case, wd, paths, out=f't{k}.fasta', max_variants_per_node=mv,
-                                      additional_variants_per_misc=av)
+                                      additional_variants_per_misc=av, timeout_seconds=180)
                 got = {s for _, s in fa}
                 res['counters']['timeout_runs'] = res['counters'].get('timeout_runs', 0) + 1
                 if not got <= base:
@@ -87,6 +97,9 @@ def limits_case(spec):
                 elif any(b[0] > a[0] or b[1] > a[1] for a, b in zip(ps, ps[1:])):
                     res['violations'].append({'kind': 'retry-relaxes-limits', 'msg': f'attempt parameters {ps}'})
             except Exception as e:
+                if len(attempts['params']) > k + 1:
+                    res['counters']['limit_case_wallclock_timeouts'] = 1      # a non-injected attempt hit the wall-clock limit
+                    continue
                 res['violations'].append({'kind': 'retry-crash', 'msg': f'{k} timeouts, limits {mv}/{av}: {type(e).__name__}: {e}'})
             finally:
                 M.call_variant_peptides_wrapper = orig
